@@ -495,3 +495,54 @@ pub fn curve3_spec(nmin: usize, nmax: usize, lo: f64, hi: f64, with_dups: bool) 
         })
         .boxed()
 }
+
+// ---------------------------------------------------------------------------------------------
+// A curve that was DERIVED from another one (resampled, simplified, cut, reversed, moved) must behave like a curve
+// freshly built from its own visible vertices: its cumulative-length table, its total length and its stations are
+// functions of those vertices, not of the curve it came from.
+
+/// Checks the internal tables of a derived 2D curve against its own vertices; `site` prefixes the signatures.
+pub fn derived_curve2_consistent(site: &str, c: &engeom::Curve2) -> Result<(), crate::fw::Failure> {
+    let v = c.points();
+    let model = Poly::new(v.to_vec());
+    let scale = model.scale().max(1e-300);
+    let ls = c.lengths();
+    crate::ensure_r!(ls.len() == v.len(), format!("{site}/derived/lengths_count"), "{} cumulative lengths for {} vertices", ls.len(), v.len());
+    for k in 0..v.len() {
+        crate::ensure_r!((ls[k] - model.cum[k]).abs() <= 1e-9 * scale + 1e-12 * model.len(), format!("{site}/derived/length_table"), "cumulative length {k} is {:e} but the vertices give {:e} (total {:e})", ls[k], model.cum[k], model.len());
+    }
+    crate::ensure_r!((c.length() - model.len()).abs() <= 1e-9 * scale + 1e-12 * model.len(), format!("{site}/derived/length"), "length() = {:e} but the vertices give {:e}", c.length(), model.len());
+    if c.is_closed() {
+        crate::ensure_r!((v[0] - v[v.len() - 1]).norm() <= c.tol() + 1e-12 * scale, format!("{site}/derived/closed_flag"), "is_closed() but the end vertices are {:e} apart (tol {:e})", (v[0] - v[v.len() - 1]).norm(), c.tol());
+    }
+    for f in [0.23, 0.5, 0.81] {
+        let l = f * model.len();
+        if let Some(st) = c.at_length(l) {
+            let want = model.point_at(l);
+            crate::ensure_r!((st.point() - want).norm() <= 1e-9 * scale + 1e-9 * model.len(), format!("{site}/derived/station_off_own_vertices"), "at_length({l:e}) of the derived curve is {:e} from where its own vertices put it", (st.point() - want).norm());
+        } else {
+            return Err(crate::fw::failure(format!("{site}/derived/station_none"), format!("at_length({l:e}) is None on a derived curve of length {:e}", model.len())));
+        }
+    }
+    Ok(())
+}
+
+pub fn derived_curve3_consistent(site: &str, c: &engeom::Curve3) -> Result<(), crate::fw::Failure> {
+    let v = c.points();
+    let model = Poly::new(v.to_vec());
+    let scale = model.scale().max(1e-300);
+    let ls = c.lengths();
+    crate::ensure_r!(ls.len() == v.len(), format!("{site}/derived/lengths_count"), "{} cumulative lengths for {} vertices", ls.len(), v.len());
+    for k in 0..v.len() {
+        crate::ensure_r!((ls[k] - model.cum[k]).abs() <= 1e-9 * scale + 1e-12 * model.len(), format!("{site}/derived/length_table"), "cumulative length {k} is {:e} but the vertices give {:e}", ls[k], model.cum[k]);
+    }
+    crate::ensure_r!((c.length() - model.len()).abs() <= 1e-9 * scale + 1e-12 * model.len(), format!("{site}/derived/length"), "length() = {:e} but the vertices give {:e}", c.length(), model.len());
+    for f in [0.23, 0.5, 0.81] {
+        let l = f * model.len();
+        if let Some(st) = c.at_length(l) {
+            let want = model.point_at(l);
+            crate::ensure_r!((st.point() - want).norm() <= 1e-9 * scale + 1e-9 * model.len(), format!("{site}/derived/station_off_own_vertices"), "at_length({l:e}) of the derived curve is {:e} from where its own vertices put it", (st.point() - want).norm());
+        }
+    }
+    Ok(())
+}
